@@ -1539,6 +1539,8 @@ pub fn stat_programs(tier: &str) -> Vec<Program> {
         v.extend(stat_family(2, 2, 4, [true, true], [true, true], false));
         v.extend(stat_family(3, 1, 3, [true, true], [true, true], true));
         v.extend(stat_family(3, 2, 4, [false, true], [false, true], false));
+        v.extend(stat_family(3, 2, 5, [true, true], [true, true], true));
+        v.extend(stat_family(2, 3, 5, [true, false], [false, true], true));
     }
     v
 }
@@ -2831,8 +2833,10 @@ pub fn spin_obs_family(full: bool) -> Vec<Program> {
     let mut variants: Vec<(MO, MO, MO, MO, bool)> = vec![(Sc, Sc, Sc, Sc, false), (Sc, Sc, Sc, Sc, true)];
     // (x stores, flag store, flag load, x loads, rmw probe)
     variants.push((Rlx, Rel, Acq, Rlx, false));
+    // all relaxed: the old value of x may still be read after the loop (known finding D24 when
+    // the spinner had already read it before the loop)
+    variants.push((Rlx, Rlx, Rlx, Rlx, false));
     if full {
-        variants.push((Rlx, Rlx, Rlx, Rlx, false));
         variants.push((Rlx, Sc, Sc, Rlx, false));
         variants.push((Rel, Rel, Acq, Acq, false));
     }
@@ -2841,6 +2845,14 @@ pub fn spin_obs_family(full: bool) -> Vec<Program> {
         let spinner: Vec<Op> = vec![ld(1, xl), K::AwaitSpun { a: 0, mo: fl, want: 1 }.into(), if rmw { fadd(1, 0, xl) } else { ld(1, xl) }];
         out.push(with_main("SPIN-obs", atomics(2), vec![], vec![setter.clone(), spinner.clone()], vec![], vec![ld(1, xl)]));
         out.push(with_main("SPIN-obs-main", atomics(2), vec![], vec![setter.clone()], spinner, vec![]));
+    }
+    // plain message passing through the loop, nothing read before it: "spun, data still old" is
+    // allowed when nothing synchronises
+    for (ds, fs, fl) in [(Rlx, Rlx, Rlx), (Rlx, Rel, Rlx), (Rlx, Rlx, Acq), (Rlx, Rel, Acq)] {
+        let setter = vec![st(1, 7, ds), st(0, 1, fs)];
+        let spinner: Vec<Op> = vec![K::AwaitSpun { a: 0, mo: fl, want: 1 }.into(), ld(1, Rlx)];
+        out.push(with_main("SPIN-mp", atomics(2), vec![], vec![setter.clone(), spinner.clone()], vec![], vec![]));
+        out.push(with_main("SPIN-mp-main", atomics(2), vec![], vec![setter], spinner, vec![]));
     }
     let ld_os: &[MO] = if full { &[Sc, Acq, Rlx] } else { &[Sc] };
     // two setters: the flag is raised by one thread, the data written by another
